@@ -259,7 +259,7 @@ func checkHandleConnBadFrame(w *World, r *Report) {
 	okRestart := false
 	for _, b := range ci.fn.Blocks {
 		for _, in := range b.Instrs {
-			if c, ok := in.(*ssa.Call); ok && calleeName(c) == "leptondController.RestartCamera" {
+			if c, ok := in.(*ssa.Call); ok && (calleeName(c) == "leptondController.RestartCamera" || alwaysCalls(w, c.Call.StaticCallee(), "leptondController.RestartCamera", 0)) {
 				gs := e.guardsOf(b)
 				for _, g := range gs {
 					if g.Pos && strings.HasPrefix(g.Cond.String(), "#1(lepton3.BadFrameErr(") {
@@ -321,4 +321,31 @@ func findParserSelector(w *World) *ssa.Function {
 		}
 	}
 	return nil
+}
+
+// alwaysCalls: fn is a function of the repository every execution of which calls `name` (directly, or through another
+// repository function that always does), i.e. the call sits in a block that dominates every return of fn.
+func alwaysCalls(w *World, fn *ssa.Function, name string, depth int) bool {
+	if fn == nil || depth > 2 || len(fn.Blocks) == 0 || !w.IsRepoFunc(fn) {
+		return false
+	}
+	for _, b := range fn.Blocks {
+		always := true
+		for _, rb := range fn.Blocks {
+			if _, isRet := rb.Instrs[len(rb.Instrs)-1].(*ssa.Return); isRet && !b.Dominates(rb) {
+				always = false
+			}
+		}
+		if !always {
+			continue
+		}
+		for _, in := range b.Instrs {
+			if c, ok := in.(*ssa.Call); ok {
+				if calleeName(c) == name || alwaysCalls(w, c.Call.StaticCallee(), name, depth+1) {
+					return true
+				}
+			}
+		}
+	}
+	return false
 }
